@@ -21,6 +21,7 @@ import (
 	"fmt"
 	"io"
 	"os"
+	"runtime/debug"
 	"os/exec"
 	"path/filepath"
 	"strings"
@@ -131,6 +132,7 @@ func main() {
 	r.FloorCount("interruptions_that_cut_the_stream", int64(r.Pick(100, 1500)))
 	r.FloorCount("overlap_schedules", int64(r.Pick(100, 2000)))
 	r.FloorCount("install_faults_kill", int64(r.Pick(200, 2000)))
+	r.FloorCount("install_faults_io-error", int64(r.Pick(150, 1500)))
 	r.FloorCount("install_faults_power-loss", int64(r.Pick(200, 2000)))
 	r.Finish()
 }
@@ -928,6 +930,15 @@ func headOf(s string, n int) string {
 	return s
 }
 
+func safeClose(t *fsmx.T) (err error) {
+	defer func() {
+		if p := recover(); p != nil {
+			err = fmt.Errorf("panic in Close: %v", p)
+		}
+	}()
+	return t.Close()
+}
+
 // runInstallFaults: the install is interrupted at every file-system operation boundary, once by a
 // process kill (everything done so far stays, nothing more happens) and once by a power loss
 // (everything not yet durable is lost). After the restart the replica must open and show either
@@ -989,6 +1000,100 @@ func runInstallFaults(r *ev.Run, id caseID) {
 	n := fs0.Ops() - before
 	t0.Close()
 	for k := before + 1; k <= before+n+1; k++ {
+		// third fault: operation k fails with an I/O error and the process goes on. The replica
+		// must keep serving (no read may bring the process down), showing its complete previous
+		// state or the complete installed state, live and after a clean restart.
+		func() {
+			fs := crashfs.New(fsmx.BaseDir)
+			t, err := prepare(fs)
+			if err != nil {
+				r.Violation("receiver-setup", err.Error(), w)
+				return
+			}
+			fs.SetPhase("install")
+			fs.FailAt(k)
+			var recErr error
+			exited := false
+			func() {
+				defer func() {
+					if p := recover(); p != nil {
+						if strings.Contains(string(debug.Stack()), "go.uber.org/zap") || strings.HasPrefix(fmt.Sprint(p), "fatal: ") || strings.Contains(fmt.Sprint(p), crashfs.ErrInjected.Error()) {
+							// the storage engine logged a fatal error (in production: an orderly
+							// process exit at this very operation) - the same as a process kill
+							// here, which the kill mode below covers
+							exited = true
+							return
+						}
+						panic(p)
+					}
+				}()
+				recErr = t.Recover(snap)
+			}()
+			if exited {
+				r.Count("install_io_errors_answered_by_a_logged_fatal_exit(covered by the kill mode)", 1)
+				return
+			}
+			if !fs.Failed() {
+				_ = t.Close()
+				return
+			}
+			op := fs.FailOp()
+			at := fmt.Sprintf("I/O error at %s (formats %d->%d, install returned %v)", op, fa, fb, recErr)
+			w.Detail = []string{at}
+			var d *model.Table
+			var derr error
+			func() {
+				defer func() {
+					if p := recover(); p != nil {
+						derr = fmt.Errorf("panic: %v", p)
+					}
+				}()
+				d, derr = t.Dump()
+			}()
+			if derr != nil {
+				_ = safeClose(t)
+				r.Violation("read-fails-after-install-hit-by-io-error", fmt.Sprintf("after the install was hit by an I/O error a read of the live replica fails: %v [%s]", derr, at), w)
+				return
+			}
+			if fsmx.Diff(d, oldM) != "" && fsmx.Diff(d, newM) != "" {
+				_ = safeClose(t)
+				r.Violation("interrupted-install-leaves-neither-old-nor-new-state:io-error", fmt.Sprintf("the live replica shows neither its previous state (%s) nor the installed state (%s) [%s]", fsmx.Diff(d, oldM), fsmx.Diff(d, newM), at), w)
+				return
+			}
+			if recErr == nil && fsmx.Diff(d, newM) != "" {
+				_ = safeClose(t)
+				r.Violation("install-reported-success-but-old-state-kept", fmt.Sprintf("RecoverFromSnapshot returned nil, the live replica still shows its previous state [%s]", at), w)
+				return
+			}
+			live := "new"
+			if fsmx.Diff(d, oldM) == "" {
+				live = "old"
+			}
+			if err := safeClose(t); err != nil {
+				r.Violation("close-fails-after-install-hit-by-io-error", fmt.Sprintf("%v [%s]", err, at), w)
+				return
+			}
+			fs.FailAt(0)
+			fs.SetPhase("reopen")
+			t2 := fsmx.New(fs, "t", 10001, 1, fb, nil)
+			if _, err := t2.SM.Open(nil); err != nil {
+				r.Violation("reopen-fails-after-interrupted-install:io-error", fmt.Sprintf("Open fails after a clean close of a replica whose install was hit by an I/O error (live state was the %s one): %v [%s]", live, err, at), w)
+				return
+			}
+			d2, err := t2.Dump()
+			t2.Close()
+			if err != nil {
+				r.Violation("dump-error-after-interrupted-install", err.Error()+" ["+at+"]", w)
+				return
+			}
+			if fsmx.Diff(d2, oldM) != "" && fsmx.Diff(d2, newM) != "" {
+				r.Violation("interrupted-install-leaves-neither-old-nor-new-state:io-error", fmt.Sprintf("after a clean restart the replica shows neither its previous state (%s) nor the installed state (%s) [%s]", fsmx.Diff(d2, oldM), fsmx.Diff(d2, newM), at), w)
+				return
+			}
+			r.Count("install_faults_io-error", 1)
+			r.Distinct("install_fault_sites", "io-error|"+op.Kind+"|"+op.Class)
+			r.Nontrivial(fmt.Sprint("install-fault", id.Seed, k, "io-error"))
+		}()
 		for _, mode := range []string{"kill", "power-loss"} {
 			fs := crashfs.New(fsmx.BaseDir)
 			t, err := prepare(fs)
